@@ -37,6 +37,18 @@ def run(chk):
         if i % 3 == 2:
             f = (lambda v: 1000 + 7 * v) if i % 2 else (lambda v: 70000 + v)
             cases[i] = dict(c, V=[f(v) for v in c["V"]], E=[[f(x), f(y)] for x, y in c["E"]], root=f(c["root"]))
+    # numeric 0 / 1 in place of some indeterminates (u exactly 0; neighbours of the focal vertex sharing one value)
+    extra = []
+    for i, c in enumerate(cases):
+        others = [v for v in c["V"] if v != c["root"]]
+        nb = sorted({y if x == c["root"] else x for x, y in c["E"] if c["root"] in (x, y)})
+        if i % 4 == 0 and others:
+            extra.append(dict(c, name=c["name"] + "-z", zero_u=[others[i % len(others)]]))
+        if i % 4 == 1 and len(nb) >= 2 and len(others) > len(nb):
+            extra.append(dict(c, name=c["name"] + "-o", one_u=nb))            # every neighbour of the focal vertex has u = 1
+        if i % 8 == 2 and len(others) >= 2:
+            extra.append(dict(c, name=c["name"] + "-zo", zero_u=[others[0]], one_u=[others[-1]]))
+    cases += extra
     for i, c in enumerate(cases):
         # a fresh evaluator per case; every second case reuses the SAME motif name on its own evaluator (names only have
         # to be distinct on one evaluator: two evaluators - e.g. two message-passing objects - may both call a motif "0-7")
